@@ -15,6 +15,9 @@ namespace msm = boost::msm; namespace mpl = boost::mpl; using namespace msm::fro
 
 namespace boost { namespace msm { namespace backmp11 {
 struct ct_config : state_machine_config { using compile_policy = favor_compile_time; };
+// favor_runtime_speed with the opt-in function_pointer_array dispatch strategy (default: flat_fold)
+struct fpa_policy : favor_runtime_speed { using dispatch_strategy = ::boost::msm::backmp11::dispatch_strategy::function_pointer_array; };
+struct fpa_config : state_machine_config { using compile_policy = fpa_policy; };
 }}}
 // back-end selectors: BE<Front>  (one configuration per binary, chosen by -DCFG_<name>)
 #if defined(CFG_back)
@@ -29,6 +32,9 @@ template<class F> using BE = msm::back11::state_machine<F>;
 #define IS_MP11 0
 #elif defined(CFG_backmp11)
 template<class F> using BE = msm::backmp11::state_machine<F>;
+#define IS_MP11 1
+#elif defined(CFG_backmp11_fpa)
+template<class F> using BE = msm::backmp11::state_machine<F, msm::backmp11::fpa_config>;
 #define IS_MP11 1
 #elif defined(CFG_backmp11_ct)
 template<class F> using BE = msm::backmp11::state_machine<F, msm::backmp11::ct_config>;
